@@ -574,10 +574,17 @@ theorem eval_checked_value {e : QExp F} {r : Quantity F} (h : eval true e = .ok 
   | ofTime t => cases h; rfl
   | ofDimInt n => cases h; rfl
 
-/-- **F.** For every straight-line quantity program: if it runs with dimension checking compiled in, it runs with
+/-- **F (partial: expression trees over nine `Quantity` operations).** For every straight-line quantity program
+of the language `QExp`: if it runs with dimension checking compiled in, it runs with
 checking compiled out and returns the erased result (equal value); compiled out it never fails — whatever the units of
-its literals — and its value is the plain scalar evaluation. -/
-theorem erase_program (e : QExp F) :
+its literals — and its value is the plain scalar evaluation.
+
+NOT covered by `QExp` (hence the suffix): comparison (`partial_cmp`) and `==`, `Time::try_from` /
+`DimensionlessInteger::try_from`, `State::new`, the three `State` setters, `State::get_value` / `State::update`,
+`Quantity::from(Command)`, and programs that keep intermediate results (registers) or observe anything but one final
+quantity.  `erase_program_ext` (`Thm/Lemmas/C19More.lean`, imported by `Thm/Ext/C19.lean`) extends this theorem to
+straight-line programs over all of these operations. -/
+theorem erase_program_partial (e : QExp F) :
     (∀ r, eval true e = .ok r → eval false e = .ok (eraseQ r)) ∧
     eval false e = .ok ⟨evalScalar e, ⟨0, 0⟩⟩ ∧
     (∀ r, eval true e = .ok r → r.value = evalScalar e) := by
